@@ -34,7 +34,7 @@ fn strat(tier: Tier) -> impl Strategy<Value = Case> {
         key_spec_simple(),
         opt_bytes(HDR_LENS_SMALL),
         msg_vec_range(1, lmax, MSG_LENS_SMALL),
-        prop::collection::vec((any::<u16>(), bspec_from(MSG_LENS_SMALL, &[0, 0, 1, 3])).prop_map(|(pos, val)| Step { pos, val }), 0..=smax),
+        prop::collection::vec((any::<u16>(), bspec_from(MSG_LENS_SMALL, &[0, 0, 1, 3, 6, 7, 8])).prop_map(|(pos, val)| Step { pos, val }), 0..=smax),
         any::<bool>(),
     )
         .prop_map(|(suite, key, header, msgs, steps, sweep)| Case { suite, key, header, msgs, steps, sweep })
@@ -84,8 +84,27 @@ fn check_one<CS: BbsCiphersuite>(rep: &Report, ck: &str, c: &Case) -> CheckResul
     positions.extend(c.steps.iter().map(|s| pick(s.pos, l)));
     let mut updates_at_nonzero = 0;
     for (k, &pos) in positions.iter().enumerate() {
-        let newv = if k < c.steps.len() { c.steps[k].val.bytes() } else { format!("sweep-{}", k).into_bytes() };
         let old = cur[pos].clone();
+        // value classes 6..8 relate the new value to the old one: old + suffix, a proper prefix of old, old with its
+        // last octet changed (an update that compares or hashes only a common part treats these as "unchanged")
+        let newv = if k < c.steps.len() {
+            let sp = &c.steps[k].val;
+            match sp.class {
+                6 => {
+                    let b = sp.bytes();
+                    [old.clone(), vec![0x2d], b[..b.len().min(9)].to_vec()].concat()
+                }
+                7 => old[..old.len() / 2].to_vec(),
+                8 if !old.is_empty() => {
+                    let mut v = old.clone();
+                    *v.last_mut().unwrap() ^= 1;
+                    v
+                }
+                _ => sp.bytes(),
+            }
+        } else {
+            format!("sweep-{}", k).into_bytes()
+        };
         // probes before the step: out-of-range positions and a wrong old value
         for bad in [l, l + 1, 1usize << 32, usize::MAX - 1, usize::MAX] {
             rep.eval(ck, 1);
